@@ -272,6 +272,10 @@ def run(ctx, report):
                      'decoder does not record offset = entry offset and l = bytes consumed', where(arch, dis))
 
     # ---------------------------------------------------------------- D4 renamed row copies keep the attributes of their row
+    R5 = report.rule('C17.D5', 'the operand / address size under which displacements are fetched: overrides switch the default once; every fetch reads the width its mode prescribes (shared with C01.D3)', floor=12)
+    from .c01 import fetch_width_rule
+    fetch_width_rule(ctx, R5)
+
     R4 = report.rule('C17.D4', 'a row copy that special_opcodes swaps in (iretw, pushfw, movsw, lfence ...) is a copy of the row it stands for, so that its flow attributes are that row\'s', floor=10)
     from ..stringops import renamed_copy_rule
     renamed_copy_rule(M, R4, 'the control-flow attributes (breakflow / splitflow / dstflow) are those')
